@@ -171,8 +171,8 @@ class SqliteQueue(SqliteDLQMixin, Queue):
             f"""
             SELECT id, message_type, payload, attempts, version
             FROM {self.table_name}
-            WHERE datetime(deliver_at) <= datetime('now', 'utc')
-            AND (locked_until IS NULL OR datetime(locked_until) < datetime('now', 'utc'))
+            WHERE datetime(deliver_at) <= datetime('now')
+            AND (locked_until IS NULL OR datetime(locked_until) < datetime('now'))
             AND attempts < :max_attempts
             ORDER BY deliver_at
             LIMIT 1
